@@ -486,3 +486,47 @@ Example C01_refuted_registration_panic :
   defects_C01 [fl_dbl] fl_dbl sv_dbl dbl_md CtJSON x_req = [C01UncleanPattern] /\
   outcome_of (go_call [fl_dbl] fl_dbl sv_dbl dbl_md CtJSON x_req resp1) = Some RegistrationPanic.
 Proof. vm_compute. split; reflexivity. Qed.
+
+(* ---- path variables against the declaration order ----------------------------------------------------------
+   The template lists its variables in URL order, the request message declares the bound fields in its
+   own order (and numbering): GET /orgs/{org_id}/members/{user_id} over MemberReq{user_id = 1; org_id = 2},
+   PUT /orgs/{org_id}/members/{n} over MemberPutReq{n = 1 (int64); note = 2; org_id = 3}.  Client and server
+   pair a variable with the field of the same NAME: the values arrive unswapped, under both transports. *)
+Definition ord_get_md := mkmd (s "GetMember") (s "MemberReq") (s "/orgs/{org_id}/members/{user_id}") 1.
+Definition ord_put_md := mkmd (s "PutMember") (s "MemberPutReq") (s "/orgs/{org_id}/members/{n}") 3.
+Definition ord_get_msg := mkmsg (s "MemberReq") [mkf (s "user_id") 1 KString None; mkf (s "org_id") 2 KString None].
+Definition ord_put_msg := mkmsg (s "MemberPutReq")
+  [mkf (s "n") 1 KInt64 None; mkf (s "note") 2 KString None; mkf (s "org_id") 3 KString None].
+Definition sv_ord := mksv (s "/api") [ord_get_md; ord_put_md].
+Definition fl_ord := mkfl [ord_get_msg; ord_put_msg; mkmsg (s "Resp") []] sv_ord.
+Definition sc_ord : schema := [fl_ord].
+Definition ord_get_req : mval := [(s "user_id", FS (VStr (s "u-1"))); (s "org_id", FS (VStr (s "acme")))].
+Definition ord_put_req : mval :=
+  [(s "n", FS (VInt 7)); (s "note", FS (VStr (s "x"))); (s "org_id", FS (VStr (s "acme")))].
+
+Example C01_permuted_path_order_delivered :
+  wf_nobody sc_ord fl_ord sv_ord ord_get_md ord_get_req = true /\
+  defects_C01 sc_ord fl_ord sv_ord ord_get_md CtJSON ord_get_req = [] /\
+  (exists w, go_call sc_ord fl_ord sv_ord ord_get_md CtJSON ord_get_req resp1 = Ok (w, Delivered ord_get_req resp1) /\
+             w_path w = s "/api/orgs/acme/members/u-1") /\
+  wf_body sc_ord fl_ord sv_ord ord_put_md ord_put_req = true /\
+  defects_C01 sc_ord fl_ord sv_ord ord_put_md CtProto ord_put_req = [] /\
+  (exists w, go_call sc_ord fl_ord sv_ord ord_put_md CtProto ord_put_req resp1 = Ok (w, Delivered ord_put_req resp1) /\
+             w_path w = s "/api/orgs/acme/members/7").
+Proof.
+  vm_compute. split; [reflexivity|]. split; [reflexivity|].
+  split; [eexists; split; reflexivity|]. split; [reflexivity|]. split; [reflexivity|].
+  eexists; split; reflexivity.
+Qed.
+
+(* a body verb whose request is fully carried by the path still sends (and the server still reads) a body *)
+Definition arch_md := mkmd (s "ArchiveNote") (s "ArchiveReq") (s "/notes/{id}/archive") 2.
+Definition arch_msg := mkmsg (s "ArchiveReq") [mkf (s "id") 1 KString None].
+Definition sv_arch := mksv (s "/api") [arch_md].
+Definition fl_arch := mkfl [arch_msg; mkmsg (s "Resp") []] sv_arch.
+Definition arch_req : mval := [(s "id", FS (VStr (s "n1")))].
+Example C01_fully_path_bound_post_has_body :
+  defects_C01 [fl_arch] fl_arch sv_arch arch_md CtJSON arch_req = [] /\
+  exists w, go_call [fl_arch] fl_arch sv_arch arch_md CtJSON arch_req resp1 = Ok (w, Delivered arch_req resp1) /\
+            w_body w = Some (BJson, arch_req) /\ w_path w = s "/api/notes/n1/archive".
+Proof. vm_compute. split; [reflexivity|]. eexists. repeat split; reflexivity. Qed.
